@@ -695,6 +695,18 @@ Lemma size_arith a b c : 1 <= a <= 2147483647 -> 1 <= b <= 2147483647 -> 0 <= c 
   c * (b - 1) + a < 18446744073709551616.
 Proof. intros. nia. Qed.
 
+Lemma plane_size_lt_2_64 c w a h s stride : valid_samp s -> valid_dim w -> valid_dim h -> INT_MIN < stride <= INT_MAX ->
+  plane_fits c w a h s = true -> plane_size c w stride h s < 18446744073709551616.
+Proof.
+  intros Hs Hw Hh Hst Fc. unfold plane_fits in Fc.
+  pose proof (spec_pw_bounds c w s Hs Hw) as [B _]. pose proof (spec_ph_bounds c h s Hs Hh) as [B' _].
+  assert (B1 : spec_pw c w s <= 2147483647) by (unfold INT_MAX in Fc; lia).
+  assert (B2 : spec_ph c h s <= 2147483647) by (unfold INT_MAX in Fc; lia).
+  assert (B3 : 0 <= eff_stride stride (spec_pw c w s) <= 2147483648).
+  { unfold eff_stride. unfold INT_MIN, INT_MAX in Hst. destruct (stride =? 0); lia. }
+  unfold plane_size. apply size_arith; lia.
+Qed.
+
 Theorem sizes_fit_64 w a h s c stride :
   valid_samp s -> valid_dim w -> valid_dim h -> valid_align a -> INT_MIN < stride <= INT_MAX ->
   plane_fits 0 w a h s = true ->
@@ -708,11 +720,8 @@ Proof.
   pose proof (plane_bytes_bound 2 w k h s Hs Hw Hh ltac:(lia) F2).
   split.
   - unfold spec_total. destruct (s =? TJSAMP_GRAY); lia.
-  - pose proof (chroma_fits c w k h s Hs Hw Hh ltac:(lia) F) as Fc. unfold plane_fits in Fc.
-    pose proof (spec_pw_bounds c w s Hs Hw) as [B _]. pose proof (spec_ph_bounds c h s Hs Hh) as [B' _].
-    assert (B3 : 0 <= eff_stride stride (spec_pw c w s) <= 2147483648).
-    { unfold eff_stride, INT_MIN, INT_MAX in *. destruct (stride =? 0); lia. }
-    unfold plane_size. apply size_arith; unfold INT_MAX in *; lia.
+  - pose proof (chroma_fits c w k h s Hs Hw Hh ltac:(lia) F) as Fc.
+    apply plane_size_lt_2_64; assumption.
 Qed.
 
 (* ------------------------------------------------------------------ scaled dimensions *)
